@@ -147,11 +147,11 @@ def orientedDims (orientation w h : Nat) : Nat × Nat :=
   if orientation ≥ 5 then (h, w) else (w, h)
 
 /-- `apply_orientation(width, height, 0, 0, false)` also evaluates the first `match`
-(`width as i32 - left - 1`, `height as i32 - top - 1`) although `width()/height()` discard it; with
-overflow checks on, that subtraction panics exactly when the side is 2^31 (`as i32` = `i32::MIN`). -/
-def orientationPanics (orientation w h : Nat) : Bool :=
-  (w == 2 ^ 31 && (orientation == 2 || orientation == 3 || orientation == 7 || orientation == 8)) ||
-  (h == 2 ^ 31 && (orientation == 3 || orientation == 4 || orientation == 6 || orientation == 7))
+(`width - left - 1`, `height - top - 1`); since the repair of `c14:panic:width_with_orientation`
+that arithmetic is done in 64 bits and cannot overflow for any header (sides < 2^32), so
+`width()/height()` never panic. (Before: `width as i32 - left - 1` panicked in checked builds for a
+side of 2^31.) -/
+def orientationPanics (_orientation _w _h : Nat) : Bool := false
 
 /-- `FrameHeader::sample_width` / `sample_height` -/
 def sampleDim (dim upsampling lfLevel : Nat) : Nat :=
